@@ -7,16 +7,17 @@ CLAIM = {
     "text": "Bounded model checking over ALL thread schedules (context-bounded, every shared access a preemption point) of the real "
             "uqueue_push / uqueue_pop protocol (uqueue.h: failed attempt -> reset the descriptor -> re-check -> re-arm; counter "
             "transitions 0->1 and length->length-1 write the other side's descriptor) and of the real udeal_grab / udeal_yield / waiter "
-            "accounting (udeal.h), compiled by clang to LLVM IR and translated by vlib/seqz.py; producers / consumers / contenders "
-            "return to an event loop that runs them again only while their descriptor is readable. Asserted after every slice of "
+            "accounting (udeal.h), compiled by clang to LLVM IR and translated by vlib/seqz.py; a consumer is a level-triggered "
+            "watcher on event_pop (after ANY pop, successful or not, it runs again only while the descriptor is readable), a producer whose "
+            "push failed waits for event_push, a contender waits for the dealer's event. Asserted after every slice of "
             "every schedule: NO LOST WAKEUP -- it is never the case that work remains while every unfinished thread sleeps on a "
             "non-readable descriptor; the queue never stores more than its length; the dealer admits at most one holder at a time and "
             "after a yield the remaining contenders are not all left asleep.",
     "note": "Compositional cut (stated, see harness/conc_units.c): the FIFO under the queue is modelled as an atomic bounded queue (its "
             "linearizability is C07's subject), the event descriptors as eventfd(2) counters (read resets, write adds one, readable iff "
             "> 0; the errno/EINTR retry loops of ueventfd.h and the pipe(2) fallback are not encoded), pump start/stop as no-ops. "
-            "Trusted: clang lowering, the IR->C translator (validated every run), CBMC 6.11, sequential consistency. Bounds: 1 producer "
-            "+ 1-2 consumers, 2-3 elements, length 1-2; 2-3 dealer contenders; ROUNDS context switches per thread. Counterexamples are "
+            "Trusted: clang lowering, the IR->C translator (validated every run), CBMC 6.11, sequential consistency. Bounds: 1-2 producers "
+            "+ 1-2 consumers (up to 4 threads), 2-4 elements, length 1-2; 2-3 dealer contenders; ROUNDS context switches per thread. Counterexamples are "
             "replayed natively on the gcc build of the generated code (sequential simulation of the schedule), not on real pthreads.",
     "technique": "LLVM-IR sequentialization of the real wake-up protocols (own translator) + CBMC bounded model checking with a symbolic, "
                  "context-bounded schedule; deadlock (lost wake-up) assertion after every slice",
@@ -24,7 +25,8 @@ CLAIM = {
 
 
 def q(name, defs, timeout=600, sample=None):
-    return Query(name=name, harness="C08_wakeup.c", defines=defs + ["BUDGET=6"], shims=["uatomic_seq.h"], seqz=SEQZ, unwind=10,
+    rounds = max([int(d.split("=")[1]) for d in defs if d.startswith("ROUNDS=")] + [8])
+    return Query(name=name, harness="C08_wakeup.c", defines=defs + ["BUDGET=6"], shims=["uatomic_seq.h"], seqz=SEQZ, unwind=rounds + 2,
                  timeout=timeout, replay_witness=True, backend=KISSAT, sample=sample)
 
 
@@ -32,16 +34,21 @@ def build(tier):
     quick = tier == "quick"
     qs = [q("queue_len1_1prod_1cons_2el", ["MODE=0", "LEN=1", "NEL=2", "NPROD=1", "NT=2", "ROUNDS=8"],
             sample={"queue length": 1, "producers": 1, "consumers": 1, "elements": 2, "schedule": "symbolic: 8 rounds x (0..6 shared accesses per thread)"}),
-          q("queue_len1_1prod_2cons_2el", ["MODE=0", "LEN=1", "NEL=2", "NPROD=1", "NT=3", "ROUNDS=6"]),
+          q("queue_len2_1prod_1cons_3el", ["MODE=0", "LEN=2", "NEL=3", "NPROD=1", "NT=2", "ROUNDS=8"], timeout=1200),
+          q("queue_len1_1prod_2cons_2el", ["MODE=0", "LEN=1", "NEL=2", "NPROD=1", "NT=3", "ROUNDS=6"], timeout=1200),
+          q("queue_len2_2prod_1cons_2el", ["MODE=0", "LEN=2", "NEL=2", "NPROD=2", "NT=3", "ROUNDS=6"], timeout=1200,
+            sample={"queue length": 2, "producers": 2, "consumers": 1, "elements": "2 per producer", "schedule": "symbolic: 6 rounds x (0..6 shared accesses per thread)"}),
           q("dealer_2_contenders", ["MODE=1", "NT=2", "ROUNDS=8"],
             sample={"dealer contenders": 2, "schedule": "symbolic: 8 rounds x (0..6 shared accesses per thread)"})]
     if not quick:
-        qs += [q("queue_len2_1prod_1cons_3el", ["MODE=0", "LEN=2", "NEL=3", "NPROD=1", "NT=2", "ROUNDS=10"], timeout=3000),
+        qs += [q("queue_len2_1prod_1cons_3el_r10", ["MODE=0", "LEN=2", "NEL=3", "NPROD=1", "NT=2", "ROUNDS=10"], timeout=3000),
                q("queue_len1_2prod_1cons", ["MODE=0", "LEN=1", "NEL=1", "NPROD=2", "NT=3", "ROUNDS=8"], timeout=3000),
+               q("queue_len2_2prod_1cons_2el_r8", ["MODE=0", "LEN=2", "NEL=2", "NPROD=2", "NT=3", "ROUNDS=8"], timeout=3000),
                q("queue_len2_1prod_2cons_3el", ["MODE=0", "LEN=2", "NEL=3", "NPROD=1", "NT=3", "ROUNDS=8"], timeout=3000),
+               q("queue_len1_2prod_2cons", ["MODE=0", "LEN=1", "NEL=1", "NPROD=2", "NT=4", "ROUNDS=6"], timeout=3000),
                q("dealer_3_contenders", ["MODE=1", "NT=3", "ROUNDS=8"], timeout=3000),
                q("dealer_2_contenders_r12", ["MODE=1", "NT=2", "ROUNDS=12"], timeout=3000)]
-    meta = {"bounds": {"threads": "2-3", "queue_length": "1-2", "elements": "2-3", "context_bound": "ROUNDS per query"},
+    meta = {"bounds": {"threads": "2-4", "queue_length": "1-2", "elements": "2-3", "context_bound": "ROUNDS per query"},
             "exhaustive": False,
             "rule": "one query per client configuration; the schedule (slice lengths per round and thread) is symbolic inside the query",
             "assumptions": ["FIFO atomic (C07), event descriptors = eventfd(2) counters, level-triggered event loop",
